@@ -241,29 +241,50 @@ func (ii InlinedInstr) reach(from, to *ssa.BasicBlock, fr *rpFrame, subjectPath 
 		}
 		return false, false
 	}
-	seen := map[*ssa.BasicBlock]bool{}
-	st := []*ssa.BasicBlock{from}
+	// the walk is over CFG edges so that a boolean phi tested in its own block (flag set in the arms of a
+	// type switch, tested after it) can be evaluated for the predecessor actually taken
+	type edge struct{ pred, b *ssa.BasicBlock }
+	seen := map[edge]bool{}
+	st := []edge{{nil, from}}
 	for len(st) > 0 {
-		b := st[len(st)-1]
+		e := st[len(st)-1]
 		st = st[:len(st)-1]
-		if b == to {
+		if e.b == to {
 			return true
 		}
-		if seen[b] {
+		if seen[e] {
 			continue
 		}
-		seen[b] = true
-		if iff, ok := b.Instrs[len(b.Instrs)-1].(*ssa.If); ok {
-			if val, ok := known(iff.Cond, 0); ok {
+		seen[e] = true
+		blk := e.b
+		if iff, ok := blk.Instrs[len(blk.Instrs)-1].(*ssa.If); ok {
+			val, ok := known(iff.Cond, 0)
+			if !ok && e.pred != nil {
+				if phi, isPhi := iff.Cond.(*ssa.Phi); isPhi && phi.Block() == blk {
+					for i, p := range blk.Preds {
+						if p != e.pred {
+							continue
+						}
+						if k, isC := phi.Edges[i].(*ssa.Const); isC && k.Value != nil && k.Value.Kind() == constant.Bool {
+							val, ok = constant.BoolVal(k.Value), true
+						} else {
+							val, ok = known(phi.Edges[i], 1)
+						}
+					}
+				}
+			}
+			if ok {
 				if val {
-					st = append(st, b.Succs[0])
+					st = append(st, edge{blk, blk.Succs[0]})
 				} else {
-					st = append(st, b.Succs[1])
+					st = append(st, edge{blk, blk.Succs[1]})
 				}
 				continue
 			}
 		}
-		st = append(st, b.Succs...)
+		for _, s := range blk.Succs {
+			st = append(st, edge{blk, s})
+		}
 	}
 	return false
 }
